@@ -571,3 +571,51 @@ func closedGoverned(c *chk.Ctx, b *ssa.BasicBlock, sentinel *ssa.Global) bool {
 	}
 	return seen["err==io.EOF"] && seen["IsErrClosing"]
 }
+
+// ruleReaderExitStops: the reader gives up only after stopping its owner (or
+// when the owner is already stopped), so a dead reader never leaves a
+// half-alive owner behind.
+func ruleReaderExitStops(c *chk.Ctx, owner string) {
+	stop := stopFunc(c, owner)
+	var reader *ssa.Function
+	for _, s := range chanSites(c, "Recv") {
+		if ir.RecvNamed(s.fn) == ownerType(c, owner) {
+			reader = s.fn
+		}
+	}
+	if stop == nil || reader == nil {
+		c.Undecided("RUN.readerexit", nil, owner+" reader", 0, "reader or stop function not resolved")
+		return
+	}
+	chPath := chk.PathOfVar(ownerType(c, owner), ownerCh(c, owner))
+	n := 0
+	for _, r := range ir.Returns(reader) {
+		if owner == "client" {
+			// the reader loop continues while the reader function returns nil
+			if len(r.Results) == 1 && ir.IsNilConst(ir.ReturnResult(r, 0)) {
+				continue
+			}
+		}
+		n++
+		stopped := false
+		ir.Calls(reader, func(ci ssa.CallInstruction) {
+			for _, g := range calleesOf(c, ci) {
+				if g == stop && ir.InstrDominates(ci, r) {
+					stopped = true
+				}
+			}
+		})
+		if !stopped {
+			// already stopped: IsNil(ch) established under the lock on this path
+			for _, cd := range ir.CondsAt(r.Block()) {
+				if x, eq, ok := ir.NilCompare(cd.V); ok && chk.LoadsField(x, ownerCh(c, owner)) && eq == cd.Truth {
+					stopped = true
+				}
+			}
+		}
+		c.Check(stopped, "RUN.readerexit", reader, owner+" reader exit", r.Pos(), "the reader exits only after calling the stop function (or on the edge where "+chPath.String()+" is already nil)", "the "+owner+"'s reader can exit without stopping the "+owner+": pending operations would never complete, the stop hook would not run and later operations would transmit on a dead connection")
+	}
+	if n == 0 {
+		c.Undecided("RUN.readerexit", reader, owner+" reader exit", reader.Pos(), "no exit found in the reader")
+	}
+}
